@@ -18,7 +18,7 @@ import subprocess
 import sys
 import sysconfig
 
-from tools import common, shroudrun, extract_pystmts, c03_helpers
+from tools import common, shroudrun, extract_pystmts, extract_pydescr, c03_helpers, c03_ext
 from tools.gen import pygen
 
 LEVEL = "proof"
@@ -46,7 +46,28 @@ MANIFEST = dict(
          "(3) List-helper model (Props/C03Lists.lean): every item converted in order, acceptance depends on the item classes "
          "only (every value, -1 / 0 / extremes included, converts unchanged), the first rejected item gives TypeError "
          "with its index and leaves nothing allocated, fill/broadcast, to_PyList round trip, char** items. "
-         "Ties on every run: emitted format string, keyword list, case call lists (count and referenced parameter), switch / "
+         "(4) Implied arguments (Props/C03Implied.lean over Model/PyImplied.lean: expression type with constants, arguments, size / len / "
+         "len_trim, + - * /, unary signs, parentheses; render = the C text ToImplied writes; evalC = what that text computes with "
+         "int / Py_ssize_t / size_t operands, wrapping size_t arithmetic, undefined signed overflow and division by zero; "
+         "assignTo = conversion to the parameter's type): implied_call_equiv_partial - for every parameter list, every set of "
+         "implied expressions and every accepted prefix call the library receives, in the position of every implied parameter, "
+         "the C value of its expression over the caller's own arguments (positional, else keyword by name) "
+         "(implied_value_received position by position, callerEnv_head_positional / _keyword); evalC_signed_eq_math_partial / "
+         "implied_int_receives_math_partial - without a size_t operand the C value is the value of the expression over the "
+         "integers whenever it is defined; implied_unsigned_witness - false with a strlen operand ((len(s)-n)/2 gives -2 for -1; "
+         "open finding). "
+         "(5) Struct / class member descriptors (Props/C03Descr.lean over Model/PyDescr.lean and Gen/PyDescr.lean regenerated on "
+         "every run from all py_descr_* entries, setter / getter lines as op codes, interpreter over member / remembered object / "
+         "released objects): set_then_get_roundtrip - for every entry, every previous state and every convertible object the "
+         "setter answers 0 and the getter then shows the value just stored; set_bad_member - a rejected object gives -1 and the "
+         "member is what it was (scalar_set_bad_unchanged, arr_set_bad_unchanged) or NULL (pointer members: ptr_set_bad_clears, "
+         "ptr_set_bad_unchanged_is_false; open finding); ptr_set_good (old object released exactly once); getter_total; "
+         "descr_rows_canonical (decide over the table); lookup_in_table (lookup_stmts_tree answers a table entry or none, all "
+         "tables / paths), lookup_selects (bool / char / std::string scalars have no entry, int** falls back to the scalar entry). "
+         "Ties on every run: emitted `name = <expr>;` of generated implied expressions == render, value received by compiled "
+         "C++ and C extensions == evalC + assignTo for generated calls in every positional / keyword split; statement entry Shroud "
+         "selects for generated struct members == lookup, emitted getter / setter line counts == clause lengths, compiled "
+         "assignment / read sequences == the interpreter; emitted format string, keyword list, case call lists (count and referenced parameter), switch / "
          "SH_nargs presence, PyDict_Size operand, dispatch windows and callee order, return shape, returned items, "
          "Py_BuildValue format and argument count, struct-constructor format / field assignments / initialised variables are "
          "extracted from the generated C of generated descriptions and compared with the model; compiled extensions are "
@@ -68,15 +89,53 @@ MANIFEST = dict(
          "library-owned objects (identity / aliasing). Trusted: Lean kernel; the abstraction of CPython's vgetargskeywords; "
          "the translator's pattern table (which template lines acquire / release / hand on), its C-API arity table and the "
          "value classes per format unit; that a list argument's post-parse conversion can be folded into the unit's accepted "
-         "classes (the helper model decides which sequences a converter accepts); g++/gcc and CPython 3.12. Not modelled: "
-         "CPython reference counts, numpy conversions, getter/setter clauses of struct members, py_implied expressions "
-         "(opaque value), integers outside the C type's range (OverflowError), the extension-type object protocol (covered "
+         "classes (the helper model decides which sequences a converter accepts); g++/gcc and CPython 3.12. Implied / member oracle: the received "
+         "implied value must equal the expression over the caller's arguments computed in Python from the declaration (random "
+         "expressions of depth <= 3 over size(list) / len / len_trim / int arguments / constants, lists of 0-6 items, strings of "
+         "0-8 characters some with trailing blanks, ints in -9..9, all splits); struct members of every descriptor kind (int long "
+         "short double float, char[6], int[3], double[2], char*, int* / double* +dimension) between other members: convertible "
+         "values read back converted, rejected ones (wrong type, bad item, None) raise TypeError / ValueError / OverflowError - "
+         "never SystemError or a crash - and the member reads as before. Additional trust: the pattern table of "
+         "tools/extract_pydescr.py (template line -> op code); that the fill helper writes the member only on success and the "
+         "converters' verdicts (PyV.good / bad) - both observed on the compiled code. Not modelled: "
+         "CPython reference counts, numpy conversions (py_descr_*_numpy stay in the path table without clauses), user functions "
+         "inside implied expressions, implied parameters of a type other than int in the generated calls (assignTo models "
+         "Py_ssize_t / size_t targets, not driven), charlen given as an identifier, deleting a member (del r.x), integers "
+         "outside the C type's range (OverflowError), the extension-type object protocol (covered "
          "by the sequence oracle only). No generator exclusions remain.",
     technique="Lean 4 proof by induction over parameter / item lists + decide +kernel over regenerated tables + differential "
               "correspondence on emitted text, compiled extensions and compiled helpers + compiled-extension oracle",
 )
-MODULES = ["ShroudVerif.Props.C03", "ShroudVerif.Props.C03Tables", "ShroudVerif.Props.C03Lists"]
+MODULES = ["ShroudVerif.Props.C03", "ShroudVerif.Props.C03Tables", "ShroudVerif.Props.C03Lists", "ShroudVerif.Props.C03Implied",
+           "ShroudVerif.Props.C03Descr"]
 THEOREMS = {
+    "ShroudVerif.Props.C03Implied": [
+        "Shroud.PyImplied.refine_specArgs",
+        "Shroud.PyImplied.implied_call_equiv_partial",
+        "Shroud.PyImplied.specArgsI_length",
+        "Shroud.PyImplied.implied_value_received",
+        "Shroud.PyImplied.callerEnv_head_positional",
+        "Shroud.PyImplied.callerEnv_head_keyword",
+        "Shroud.PyImplied.evalC_signed_eq_math_partial",
+        "Shroud.PyImplied.assign_int_id",
+        "Shroud.PyImplied.implied_int_receives_math_partial",
+        "Shroud.PyImplied.implied_unsigned_witness",
+    ],
+    "ShroudVerif.Props.C03Descr": [
+        "Shroud.PyDescr.scalar_set_good",
+        "Shroud.PyDescr.scalar_set_bad_unchanged",
+        "Shroud.PyDescr.arr_set_good",
+        "Shroud.PyDescr.arr_set_bad_unchanged",
+        "Shroud.PyDescr.ptr_set_good",
+        "Shroud.PyDescr.ptr_set_bad_clears",
+        "Shroud.PyDescr.ptr_set_bad_unchanged_is_false",
+        "Shroud.PyDescr.descr_rows_canonical",
+        "Shroud.PyDescr.getter_total",
+        "Shroud.PyDescr.set_then_get_roundtrip",
+        "Shroud.PyDescr.set_bad_member",
+        "Shroud.PyDescr.lookup_in_table",
+        "Shroud.PyDescr.lookup_selects",
+    ],
     "ShroudVerif.Props.C03Lists": [
         "Shroud.PyList.getList_converts_in_order",
         "Shroud.PyList.getList_bad_item",
@@ -1536,6 +1595,11 @@ def run(ctx):
         ACCEPTS["i"], ACCEPTS["d"] = _live["classes"]["i"], _live["classes"]["d"]
     except (extract_pystmts.Unclassified, RuntimeError) as e:
         ctx.tie_broken("pystmts-translator", str(e)[:800])
+    try:
+        c03_ext.PYDESCR["rows"] = extract_pydescr.regenerate()
+        ctx.note("translator (py_descr_* getter / setter clauses -> Gen/PyDescr.lean)", c03_ext.PYDESCR["rows"][1])
+    except (extract_pydescr.Unclassified, RuntimeError) as e:
+        ctx.tie_broken("pydescr-translator", str(e)[:800])
     ok = ctx.lean(MODULES, THEOREMS, extra_targets=("drv_pydispatch",))
     drv = common.Driver("drv_pydispatch")
     r = common.rng("c03")
@@ -1578,6 +1642,21 @@ def run(ctx):
         ctx.note("char_member_assignments (struct as class, constructor and setter, c++ and c)", c03_helpers.member_oracle(ctx, thorough))
         if dis_help:
             ctx.tie_broken("pylist-helpers", dis_help[:6])
+    ddrv = drv if drv.available() else _NoDriver()
+    dis_imp, dis_mem = [], []
+    ctx.note("implied_expression_cases (emitted assignment text + compiled calls, c++ and c)", c03_ext.implied_run(ctx, ddrv, thorough, dis_imp))
+    ctx.note("disagreements_implied", len(dis_imp))
+    if dis_imp:
+        ctx.tie_broken("pyimplied", dis_imp[:6])
+    if c03_ext.PYDESCR["rows"] is not None:
+        ctx.note("struct_member_cases (entry selection, clause lengths, compiled set / get sequences, c++ and c)",
+                 c03_ext.members_run(ctx, ddrv, thorough, dis_mem))
+        ctx.note("disagreements_members", len(dis_mem))
+        if dis_mem:
+            ctx.tie_broken("pydescr", dis_mem[:6])
+    ctx.note("members_without_descriptor_statements", c03_ext.unsupported_members(ctx))
+    for s_ in (dis_imp + dis_mem)[:3]:
+        ctx.sample(s_)
     for li, lib in enumerate(libs):
         check_library(ctx, drv if drv.available() else _NoDriver(), lib, thorough, r, dis_gen, dis_call,
                       extra_calls=extra if li == 0 else ())
